@@ -3,6 +3,7 @@ C07 — permissions and channel bindings live one full timeout past their last r
 -/
 import TurnModel.Lemmas.ServerInv
 import TurnModel.Lemmas.ServerHandlers
+import TurnModel.Gen.Consts
 namespace Turn.C07
 open Turn.Srv
 
@@ -223,5 +224,12 @@ set_option maxRecDepth 8000 in
 example : ((run cfg0 init (hist0 ++ [.adv (300 * sec)])).1.allocs.map (fun a => (a.perms.length, a.chans.length))) = [(0, 1)] := by decide
 set_option maxRecDepth 8000 in
 example : ((run cfg0 init (hist0 ++ [.adv (600 * sec)])).1.allocs.map (fun a => (a.perms.length, a.chans.length))) = [(0, 0)] := by decide
+
+
+/-- regenerated: the timeouts NewServer applies when the configuration leaves them at zero are the
+    documented 5 minutes (permission) and 10 minutes (channel binding) -/
+theorem defaults_as_documented :
+    Gen.Consts.default_permissionTimeout = 300 * 1000000000 ∧ Gen.Consts.default_channelBindTimeout = 600 * 1000000000 ∧
+    Gen.Consts.allocation_DefaultPermissionTimeout = 300 * 1000000000 := by decide
 
 end Turn.C07
